@@ -1021,6 +1021,25 @@ func (E *Engine) solvePath(key string, pi int, p *PathResult, full string) []Sub
 			out[i].Detail = raw
 		}
 	}
+	if E.Tier == "thorough" {
+		// second opinion: the whole path script is also given to z3 5.1.0; an obligation both accept is counted
+		// under "z3-4.8.12+z3-5.1.0", an obligation the first accepts and the second refutes is a failure
+		res2, _ := runSolver(solvers[1], E.TimeoutQ, full, n, E.WorkDir, tag+".second")
+		for i := range out {
+			if p.Checks[i].Guard || out[i].Status != "unsat" || res2 == nil {
+				continue
+			}
+			switch res2[i] {
+			case "unsat":
+				out[i].Solver = solvers[0].name + "+" + solvers[1].name
+			case "sat":
+				out[i].Status = "sat"
+				out[i].Solver = solvers[1].name
+				out[i].Detail = "solver disagreement: " + solvers[0].name + " says unsat, " + solvers[1].name + " says sat"
+				failedObs.Store(p.Checks[i].Ob, true)
+			}
+		}
+	}
 	// retry failures one by one with the other solvers (and the first with a longer limit)
 	for i := range out {
 		c := p.Checks[i]
